@@ -196,12 +196,27 @@ func (c *Check) configTables() {
 	rt := c.anchorFn("C19-R1", "internal/driver", "(*config).resetTransient")
 	if rt != nil {
 		assigned := map[string]bool{}
+		// in resetTransient itself, or in a helper it hands its receiver to
+		recvOf := map[*ssa.Function]ssa.Value{rt: rt.Params[0]}
 		for _, b := range rt.Blocks {
 			for _, ins := range b.Instrs {
-				if st, ok := ins.(*ssa.Store); ok {
-					if fa, ok := st.Addr.(*ssa.FieldAddr); ok && fa.X == ssa.Value(rt.Params[0]) {
-						_, F := fieldOf(fa.X.Type(), fa.Field)
-						assigned[F] = true
+				if h := helperCallee(rt, ins); h != nil {
+					for i, a := range ins.(ssa.CallInstruction).Common().Args {
+						if a == ssa.Value(rt.Params[0]) && i < len(h.Params) {
+							recvOf[h] = h.Params[i]
+						}
+					}
+				}
+			}
+		}
+		for g, recv := range recvOf {
+			for _, b := range g.Blocks {
+				for _, ins := range b.Instrs {
+					if st, ok := ins.(*ssa.Store); ok {
+						if fa, ok := st.Addr.(*ssa.FieldAddr); ok && fa.X == recv {
+							_, F := fieldOf(fa.X.Type(), fa.Field)
+							assigned[F] = true
+						}
 					}
 				}
 			}
@@ -376,6 +391,35 @@ func (c *Check) checkRename(f *ssa.Function, call ssa.CallInstruction) {
 			}
 		}
 	}
+	// the file may be filled and closed by a helper that receives it: the helper call then
+	// stands for the write and the close when, inside it, a write on the file precedes every
+	// return and every return follows a close
+	var fillers []*ssa.Call
+	for _, r := range *tmp.Referrers() {
+		ci, ok := r.(*ssa.Call)
+		if !ok || ci.Call.StaticCallee() == nil || !fnInModule(ci.Call.StaticCallee()) || len(ci.Call.StaticCallee().Blocks) == 0 {
+			continue
+		}
+		h := ci.Call.StaticCallee()
+		for i, a := range ci.Call.Args {
+			if a != tmp || i >= len(h.Params) {
+				continue
+			}
+			hw, hc := helperWritesAndCloses(h, h.Params[i])
+			if !instrDominates(ci, call.(ssa.Instruction)) {
+				continue
+			}
+			if hw {
+				wrote = true
+			}
+			if hc {
+				closed = true
+			}
+			if hw || hc {
+				fillers = append(fillers, ci)
+			}
+		}
+	}
 	switch {
 	case !sameDir:
 		c.bad("C19-R2", key, p.relFile(call.Pos()), "the temporary file is not created in filepath.Dir(fname): a rename across file systems is not atomic")
@@ -428,6 +472,36 @@ func (c *Check) checkRename(f *ssa.Function, call ssa.CallInstruction) {
 			c.bad("C19-R2", k2, p.relFile(ci.Pos()), "a failure of "+n+" does not stop the rename (its error is not tested before os.Rename): a partly written temporary file replaces the good settings file")
 		} else {
 			c.ok("C19-R2", k2, p.relFile(ci.Pos()), "error of "+n+" before the rename is examined", "the rename is unreachable when that error is non-nil")
+		}
+	}
+	// a filling helper: its own error stops the rename, and inside it the errors of the write
+	// and of the close reach its result
+	for _, ci := range fillers {
+		h := ci.Call.StaticCallee()
+		k2 := key + ":err:" + h.Name()
+		carriers := map[ssa.Value]bool{}
+		for _, fl := range flowsOf(ci) {
+			carriers[fl] = true
+		}
+		reach := reachUnder(f, func(cond ssa.Value) int {
+			if cmp, ok := cond.(*ssa.BinOp); ok && (carriers[cmp.X] || carriers[cmp.Y]) {
+				switch cmp.Op {
+				case token.NEQ:
+					return 1
+				case token.EQL:
+					return -1
+				}
+			}
+			return 0
+		})
+		lost := helperDropsFileError(h)
+		switch {
+		case reach[call.(ssa.Instruction).Block()]:
+			c.bad("C19-R2", k2, p.relFile(ci.Pos()), "a failure of "+h.Name()+" does not stop the rename (its error is not tested before os.Rename): a partly written temporary file replaces the good settings file")
+		case lost != "":
+			c.bad("C19-R2", k2, p.relFile(ci.Pos()), "error of "+lost+" inside "+h.Name()+" does not reach its result: a short write would be renamed over the good file")
+		default:
+			c.ok("C19-R2", k2, p.relFile(ci.Pos()), "errors of writing and closing the temporary file are examined before the rename", "they are returned by "+h.Name()+", and the rename is unreachable when its result is non-nil")
 		}
 	}
 }
@@ -484,7 +558,7 @@ func (c *Check) settingsMisc() {
 	p := c.P
 	if rs := c.anchorFn("C19-R4", "internal/driver", "readSettings"); rs != nil {
 		ok := false
-		for _, b := range rs.Blocks {
+		for _, b := range helperBlocks(rs, 2) {
 			for _, ins := range b.Instrs {
 				if call, isCall := ins.(*ssa.Call); isCall && call.Call.StaticCallee() != nil && call.Call.StaticCallee().Name() == "resetTransient" {
 					// receiver: &settings.Configs[i].config with i a range index over Configs
@@ -496,7 +570,7 @@ func (c *Check) settingsMisc() {
 						}
 						break
 					}
-					if ia, isIA := v.(*ssa.IndexAddr); isIA && rangeIndex(ia.Index) {
+					if ia, isIA := v.(*ssa.IndexAddr); isIA && isForwardIndex(ia.Index) {
 						ok = true
 					}
 				}
@@ -605,4 +679,100 @@ func isFieldOfValue(v ssa.Value, field string) bool {
 		}
 	}
 	return false
+}
+
+// helperWritesAndCloses: in h, a Write on the file parameter precedes every return, and every
+// return follows a Close of it (possibly a different Close per path, or `return f.Close()`).
+func helperWritesAndCloses(h *ssa.Function, file *ssa.Parameter) (writes, closes bool) {
+	var ws, cs []*ssa.Call
+	for _, r := range *file.Referrers() {
+		ci, ok := r.(*ssa.Call)
+		if !ok || ci.Call.StaticCallee() == nil {
+			continue
+		}
+		switch ci.Call.StaticCallee().String() {
+		case "(*os.File).Write", "(*os.File).WriteString":
+			ws = append(ws, ci)
+		case "(*os.File).Close":
+			cs = append(cs, ci)
+		}
+	}
+	writes, closes = len(ws) > 0, len(cs) > 0
+	for _, b := range h.Blocks {
+		ret, ok := b.Instrs[len(b.Instrs)-1].(*ssa.Return)
+		if !ok {
+			continue
+		}
+		w, c := false, false
+		for _, x := range ws {
+			if instrDominates(x, ret) {
+				w = true
+			}
+		}
+		for _, x := range cs {
+			if instrDominates(x, ret) {
+				c = true
+			}
+		}
+		writes, closes = writes && w, closes && c
+	}
+	return
+}
+
+// helperDropsFileError: the name of a Write/Close call on a file in h whose error cannot reach
+// h's error result ("" when every such error is returned on some path: directly, or through
+// the variable/phi that is returned).
+func helperDropsFileError(h *ssa.Function) string {
+	returned := map[ssa.Value]bool{}
+	for _, b := range h.Blocks {
+		if ret, ok := b.Instrs[len(b.Instrs)-1].(*ssa.Return); ok && len(ret.Results) > 0 {
+			returned[ret.Results[len(ret.Results)-1]] = true
+		}
+	}
+	for _, b := range h.Blocks {
+		for _, ins := range b.Instrs {
+			ci, ok := ins.(*ssa.Call)
+			if !ok || ci.Call.StaticCallee() == nil {
+				continue
+			}
+			n := ci.Call.StaticCallee().String()
+			if n != "(*os.File).Write" && n != "(*os.File).Close" {
+				continue
+			}
+			var errv ssa.Value = ci
+			if tup, isTuple := ci.Type().(*types.Tuple); isTuple {
+				errv = nil
+				if ci.Referrers() != nil {
+					for _, r2 := range *ci.Referrers() {
+						if ex, ok := r2.(*ssa.Extract); ok && ex.Index == tup.Len()-1 {
+							errv = ex
+						}
+					}
+				}
+			}
+			if errv == nil {
+				return n
+			}
+			ok2 := false
+			for _, fl := range flowsOf(errv) {
+				if returned[fl] {
+					ok2 = true
+				}
+			}
+			// a Close on a path that already returns an earlier error may drop its own
+			if !ok2 && n == "(*os.File).Close" {
+				for _, b2 := range h.Blocks {
+					if ret, isRet := b2.Instrs[len(b2.Instrs)-1].(*ssa.Return); isRet && instrDominates(ci, ret) {
+						if k, isConst := ret.Results[len(ret.Results)-1].(*ssa.Const); !isConst || !k.IsNil() {
+							ok2 = true // the path reports another (non-constant-nil) error
+						}
+					}
+				}
+			}
+			if !ok2 {
+				return n
+			}
+		}
+	}
+	return ""
 }
